@@ -1,7 +1,7 @@
 (* C13 — timeline.  Headline theorems only; lemmas in Proofs/TimelineProofs.v; model Model/Timeline.v.
    Times are 10 s slots since year 1; st_get calls tl_generate on the range rounded by s_normalize_unix. *)
 From Pyro Require Import Model.Base Model.Tree Model.Segment Model.Timeline Model.Storage Proofs.SegmentProofs Proofs.SegStruct
-  Proofs.TimelineProofs Proofs.StorageProofs Proofs.StorageCounters Proofs.TimelineCoarse.
+  Proofs.TimelineProofs Proofs.StorageProofs Proofs.StorageCounters Proofs.TimelineCoarse Proofs.SegCountShare Proofs.TimelineEven.
 Local Open Scope Z_scope.
 
 Theorem C13_shape_start : forall a b, tl_st (tl_generate a b) = a.
@@ -140,8 +140,58 @@ Theorem C13_entries_coarse : forall K pis sel from until out,
 Proof. exact timeline_entries_coarse. Qed.
 Print Assumptions C13_entries_coarse.
 
-(* Not proved: uploads spanning 2..9 slots (binary64 shares uint64(float64(n) * RN(m/span)); the lemma
-   share_exact_small_span is not available), and range starts off the bucket grid (outside the property). *)
+(* C13_entries_even (the property's reading): uploads of 1..9 slots whose sample count is a multiple of the
+   span (SegCountShare.even_upload, resting on Float53Share.share_exact_small_span), every bucket size, range
+   start on the bucket grid (always true for 10 s buckets).  One series: entry j is 0 when no upload overlaps
+   bucket j, else 1 + sum over the uploads of (slots of the upload inside the bucket) * (samples per slot).
+   Oj / Sj: slots, resp. samples, of the writes inside [Lj, Uj) = bucket j. *)
+Theorem C13_entries_even_single_series : forall K ws a b, Forall (valid_write K) ws -> Forall even_upload ws -> a < b ->
+  let dl := tl_lvl (tl_generate a b) in
+  a mod pow10 dl = 0 ->
+  forall j, (j < length (tl_samples (tl_generate a b)))%nat ->
+  nth j (tl_samples (tl_populate (fst (run_writes ws)) (tl_generate a b))) 0%N =
+  if Oj ws (Lj a dl j) (Uj a dl j) =? 0 then 0%N else (1 + Z.to_N (Sj ws (Lj a dl j) (Uj a dl j)))%N.
+Proof. exact even_single_series. Qed.
+Print Assumptions C13_entries_even_single_series.
+
+(* ... at storage level: [ups] = the uploads into matching series; up_ov = slots of an upload inside the
+   bucket, up_smp = up_ov * (total / span) *)
+Theorem C13_entries_even : forall K pis sel from until out,
+  Forall (even_put K) pis -> key_consistent pis ->
+  let ab := s_normalize_unix (from, until) in
+  let dl := tl_lvl (tl_generate (fst ab) (snd ab)) in
+  fst ab < snd ab -> fst ab mod pow10 dl = 0 ->
+  st_get sel from until (st_after pis) = Some out ->
+  forall j, (j < length (tl_samples (go_timeline out)))%nat ->
+    let lo := Lj (fst ab) dl j in let hi := Uj (fst ab) dl j in
+    let ups := filter (fun pi => sel_matches sel (pi_sid pi)) pis in
+    nth j (tl_samples (go_timeline out)) 0%N =
+    if sumZ (map (up_ov lo hi) ups) =? 0 then 0%N else (1 + Z.to_N (sumZ (map (up_smp lo hi) ups)))%N.
+Proof. exact timeline_entries_even. Qed.
+Print Assumptions C13_entries_even.
+
+(* Not proved: uploads of 10 or more slots (C13_long_write: the statement is false there, see
+   Float53Share.share_exact_span10_refuted for the arithmetic and DESIGN.md for the aligned-bucket case), counts
+   not divisible by the span (binary64 shares), range starts off the bucket grid (outside the property). *)
+
+Example C13_entries_even_nonvacuous :
+  let mk := fun (f u : Z) (v : N) =>
+    {| pi_sid := {| sid_key := [97;123;125]%N; sid_app := [97]%N; sid_tags := [] |}; pi_from := f; pi_until := u;
+       pi_tree := t_insert [97]%N v t_empty;
+       pi_meta := {| m_spy := []; m_rate := 100%N; m_units := []; m_agg := [115;117;109]%N |} |} in
+  let sel := {| sid_key := [97;123;125]%N; sid_app := [97]%N; sid_tags := [] |} in
+  (* 3 slots x 4 samples starting at slot 1; 2 slots x 5 samples at slots 2,3 *)
+  let pis := [mk 1600000010 1600000040 12%N; mk 1600000020 1600000040 10%N] in
+  Forall (even_put 63) pis /\
+  match st_get sel 1600000000 1600000050 (st_after pis) with
+  | Some out => tl_samples (go_timeline out) = [0; 5; 10; 10; 0]%N
+  | None => False
+  end.
+Proof.
+  cbv zeta. split.
+  - repeat (apply Forall_cons; [split; [apply exact_putb_ok; vm_compute; reflexivity|split; vm_compute; reflexivity]|]). apply Forall_nil.
+  - vm_compute. reflexivity.
+Qed.
 
 Example C13_entries_coarse_nonvacuous :
   let mk := fun (f : Z) (v : N) =>
